@@ -1392,10 +1392,14 @@ mzd_t *mzd_concat(mzd_t *C, mzd_t const *A, mzd_t const *B) {
     m4ri_die("mzd_concat: C has wrong dimension!\n");
   }
 
+  /* only the column bits of A's last word are A's: a window carries bits of its parent there */
+  wi_t const a_wide     = A->width - 1;
+  word const a_mask_end = A->high_bitmask;
   for (rci_t i = 0; i < A->nrows; ++i) {
     word *dst_truerow = mzd_row(C, i);
     word const *src_truerow = mzd_row_const(A, i);
-    for (wi_t j = 0; j < A->width; ++j) { dst_truerow[j] = src_truerow[j]; }
+    for (wi_t j = 0; j < a_wide; ++j) { dst_truerow[j] = src_truerow[j]; }
+    dst_truerow[a_wide] = (dst_truerow[a_wide] & ~a_mask_end) | (src_truerow[a_wide] & a_mask_end);
   }
 
   for (rci_t i = 0; i < B->nrows; ++i) {
